@@ -24,7 +24,7 @@ import (
 )
 
 func init() {
-	register(&Prop{ID: "C36", Module: "V.C36.Check", Gen: c36Gen, Quick: 900, Thorough: 12000, Shard: 75})
+	register(&Prop{ID: "C36", Module: "V.C36.Check", Gen: c36Gen, Quick: 750, Thorough: 12000, Shard: 60})
 }
 
 var c36KindCode = map[string]int{"create-obj": 1, "create-edge": 2, "set-obj": 3, "set-edge": 4, "delobj": 5, "deledge": 6,
@@ -308,6 +308,10 @@ func c36ImportCases(r *Rng, n int) []Case {
 	return out
 }
 
+// c36Opts: histories continue from the RETURNED graph (what an editor does: g, err = d2oracle.X(g, ...)) and
+// revisit earlier source texts on purpose (c41FollowUps).
+var c36Opts = c41Opts{chain: true, undo: 0.35}
+
 func c36Gen(r *Rng, tier string, n int) []Case {
 	var out []Case
 	emit := func(class string) func(st *c41Step, s int) bool {
@@ -319,13 +323,21 @@ func c36Gen(r *Rng, tier string, n int) []Case {
 			return len(c.ImplFail) == 0
 		}
 	}
+	// run: one history; with probability p it is run a second time in this process with the same random
+	// choices, from the same start text (an editor re-opening a file, two sessions on one server):
+	// every source text of the first run comes back.
+	run := func(text string, steps int, class string, p float64) {
+		seed := r.U64()
+		c41History(NewRng(seed), text, steps, c36Opts, emit(class))
+		if r.Chance(p) {
+			c41History(NewRng(seed), text, steps, c36Opts, emit(class+"/again"))
+		}
+	}
 	for _, t := range c38Corpus {
-		c41History(r.Fork(), t, 10, emit("corpus"))
+		run(t, 10, "corpus", 1)
 	}
 	for _, t := range c41Corpus {
-		for k := 0; k < 2; k++ {
-			c41History(r.Fork(), t, 10, emit("boards-corpus"))
-		}
+		run(t, 10, "boards-corpus", 1)
 	}
 	out = append(out, c36ImportCases(r.Fork(), n/12)...)
 	for len(out) < n {
@@ -334,10 +346,10 @@ func c36Gen(r *Rng, tier string, n int) []Case {
 			if _, err := c38Compile(text); err != nil {
 				continue
 			}
-			c41History(r.Fork(), text, r.Range(1, 20), emit("boards"))
+			run(text, r.Range(1, 16), "boards", 0.35)
 		} else {
 			rich := r.Intn(3)
-			c41History(r.Fork(), c38GenDiagram(r, rich), r.Range(1, 20), emit(fmt.Sprintf("rich%d", rich)))
+			run(c38GenDiagram(r, rich), r.Range(1, 16), fmt.Sprintf("rich%d", rich), 0.35)
 		}
 	}
 	return out
